@@ -17,29 +17,27 @@ Proof. destruct pc; simpl; congruence. Qed.
 
 Section Step.
 Variable P : params.
+(* the code as it is: handle_write never flushes without outbuf_lock *)
+Hypothesis Hunl : p_unlocked P = false.
 
 (* ---- frame: a step that changes nothing L3 looks at, with the relaxations that are harmless:
    connected may drop; the request list may change where no clause reads it; a worker that is
    not inside task.service() may change its locals; a thread may ENTER _flush_some (fl0) when
-   nothing is in flight; a worker may reach an append point when nothing was discarded. *)
+   nothing is in flight. *)
 Lemma L3_frame : forall st st',
   obs (sh st') = obs (sh st) -> infl (sh st') = infl (sh st) -> wire (sh st') = wire (sh st) ->
   produced (sh st') = produced (sh st) -> discarded (sh st') = discarded (sh st) -> units (sh st') = units (sh st) ->
-  execs (sh st') = execs (sh st) ->
-  ((requests (sh st) = [] -> requests (sh st') = []) \/
-   (io_unl (ipc (io st')) = false /\ is_iosc (ipc (io st')) = false)) ->
+  execs (sh st') = execs (sh st) -> cut (sh st') = cut (sh st) ->
+  ((requests (sh st) = [] -> requests (sh st') = []) \/ is_iosc (ipc (io st')) = false) ->
   (connected (sh st') = true -> connected (sh st) = true) ->
   (forall f, io_fl (ipc (io st')) = Some f -> io_fl (ipc (io st)) = Some f \/ (f = fl0 /\ infl (sh st) = 0)) ->
   (io_fl (ipc (io st')) = None -> io_fl (ipc (io st)) = None) ->
-  (io_unl (ipc (io st')) = true -> io_unl (ipc (io st)) = true \/ requests (sh st') = []) ->
+  io_unl (ipc (io st')) = false ->
   (is_iosc (ipc (io st')) = true -> is_iosc (ipc (io st)) = true \/ requests (sh st') = []) ->
   (io_closed (ipc (io st)) = true -> io_closed (ipc (io st')) = true) ->
-  (io_after_close (ipc (io st')) = true -> io_after_close (ipc (io st)) = true \/ connected (sh st') = false) ->
   (forall j, (forall f, wk_fl (wpc (wk st' j)) = Some f -> wk_fl (wpc (wk st j)) = Some f \/ (f = fl0 /\ infl (sh st) = 0)) /\
              (wk_fl (wpc (wk st' j)) = None -> wk_fl (wpc (wk st j)) = None) /\
-             is_sc (wpc (wk st' j)) = is_sc (wpc (wk st j)) /\
              (is_relx (wpc (wk st' j)) = true -> is_relx (wpc (wk st j)) = true \/ connected (sh st') = false) /\
-             (app_pc (wpc (wk st' j)) = true -> app_pc (wpc (wk st j)) = true \/ discarded (sh st) = []) /\
              (in_task (wpc (wk st' j)) = in_task (wpc (wk st j)) \/
               (in_task (wpc (wk st' j)) = false /\ connected (sh st) = false)) /\
              (in_task (wpc (wk st' j)) = true ->
@@ -47,42 +45,41 @@ Lemma L3_frame : forall st st',
               w_idx (wk st' j) = w_idx (wk st j) /\ w_off (wk st' j) = w_off (wk st j))) ->
   L3' P st -> L3' P st'.
 Proof.
-  intros st st' H1 H2 H3 H4 H5 H6 H7 H8 H9 I1 I1' I2 I3 I4 I5 Hw [A B C D E F G H I J K L M N O Q].
+  intros st st' H1 H2 H3 H4 H5 H6 H7 H7' H8 H9 I1 I1' I2 I3 I4 Hw [A B D E F G H C I J K L M N].
   assert (FE : forall f, FlInv (sh st) f -> FlInv (sh st') f) by (intros f X; unfold FlInv in *; rewrite H1, H2; exact X).
   assert (F0 : infl (sh st) = 0 -> FlInv (sh st') fl0) by (intro X; apply FlInv_fl0; congruence).
-  split; unfold transport in *; rewrite ?H3, ?H4, ?H5, ?H6, ?H7; intros.
+  split; unfold transport, tr_l, kept in *; rewrite ?H3, ?H4, ?H5, ?H6, ?H7, ?H7'; intros.
   - rewrite H1; assumption.
-  - destruct (I2 H0) as [X|X]; auto. destruct H8 as [H8|[H8 _]]; [apply H8; auto | congruence].
-  - destruct (Hw j) as (_ & _ & X & _). rewrite X. auto.
-  - destruct (I3 H0) as [X|X]; auto. destruct H8 as [H8|[_ H8]]; [apply H8; auto | congruence].
+  - assumption.
+  - destruct (I3 H0) as [X|X]; auto. destruct H8 as [H8|H8]; [apply H8; auto | congruence].
   - destruct (I1 f H0) as [X|[X Y]]; [auto | subst f; auto].
   - destruct (Hw j) as (X & _). destruct (X f H0) as [Y|[Y Z]]; [eauto | subst f; auto].
   - rewrite H2. apply G; auto. intro j. destruct (Hw j) as (_ & X & _). auto.
   - rewrite H1, H2. assumption.
   - assumption.
   - assumption.
-  - destruct (Hw j) as (_ & _ & _ & _ & _ & T & U). destruct T as [T|[T _]]; [|congruence].
+  - assumption.
+  - destruct (Hw j) as (_ & _ & _ & T & U). destruct T as [T|[T _]]; [|congruence].
     rewrite T in H0. destruct (U ltac:(congruence)) as (U1 & U2 & U3 & U4).
     destruct (K j H0) as (K1 & K2 & us & K3 & K4).
     unfold writes in *. rewrite U1, U2, U3, U4. repeat split; auto. exists us. split; auto.
   - destruct (connected (sh st)) eqn:Ec.
-    + apply L; auto. intro j. destruct (Hw j) as (_ & _ & _ & _ & _ & T & _). destruct T as [T|[_ T]]; [|congruence].
+    + apply L; auto. intro j. destruct (Hw j) as (_ & _ & _ & T & _). destruct T as [T|[_ T]]; [|congruence].
       rewrite <- T. auto.
     + specialize (H9 H10). discriminate.
-  - destruct (Hw j) as (_ & _ & _ & X & _). destruct (connected (sh st')) eqn:Ec; auto.
+  - destruct (Hw j) as (_ & _ & X & _). destruct (connected (sh st')) eqn:Ec; auto.
     destruct (X H0) as [Y|Y]; [|congruence]. rewrite (M j Y) in H9. specialize (H9 eq_refl). discriminate.
   - auto.
-  - destruct (connected (sh st')) eqn:Ec; auto. destruct (I5 H0) as [X|X]; [|congruence].
-    rewrite (O X) in H9. specialize (H9 eq_refl). discriminate.
-  - destruct (Hw j) as (_ & _ & _ & _ & X & _). destruct (X H0) as [Y|Y]; eauto.
 Qed.
 
 Ltac frame_side :=
   cbn; first [ reflexivity
+             | assumption
              | left; let X := fresh in intro X; exact X
              | left; let X := fresh in intro X; rewrite X; reflexivity
              | left; intro; reflexivity
              | right; split; reflexivity
+             | right; reflexivity
              | let X := fresh in intro X; exact X
              | let X := fresh in intro X; discriminate X
              | let X := fresh in intro X; left; exact X
@@ -93,13 +90,12 @@ Ltac frame_side :=
              | idtac ].
 
 Ltac wk_side :=
-  cbn; repeat split;
-  first [ reflexivity | assumption | discriminate
-        | left; reflexivity
+  cbn; repeat split; intros; repeat split;
+  first [ reflexivity | assumption | congruence
+        | left; reflexivity | left; assumption
         | right; split; [ reflexivity | assumption ]
-        | let X := fresh in intro X; first [ discriminate X | exact X | left; exact X | right; assumption ]
-        | let f := fresh in let X := fresh in intros f X;
-          first [ discriminate X | left; exact X | right; split; [ congruence | assumption ] ]
+        | right; split; [ congruence | assumption ]
+        | right; assumption
         | idtac ].
 
 Ltac frame_io HL3 :=
@@ -162,24 +158,13 @@ Proof.
   apply (l1_ownreq _ HL1 j (serving_owner _ E) (serving_not_postpop _ E)). exact Hr.
 Qed.
 
-Lemma nofl_req_empty : forall st, L1 st -> L3' P st -> requests (sh st) = [] -> forall j, wk_fl (wpc (wk st j)) = None.
-Proof.
-  intros st HL1 HL3 Hr j. destruct (wk_fl (wpc (wk st j))) eqn:E; auto.
-  apply wk_fl_ol in E. apply wk_ol_task_or_sc in E. destruct E as [E|E].
-  - rewrite (notask_req_empty st HL1 Hr j) in E. discriminate.
-  - rewrite (o_nsc _ _ HL3 j) in E. discriminate.
-Qed.
-
-Lemma wk_ol_excl : forall st me, L0 st -> L1 st -> L3' P st -> wk_ol (wpc (wk st me)) = true ->
+Lemma wk_ol_excl : forall st me, L0 st -> L3' P st -> wk_ol (wpc (wk st me)) = true ->
   io_fl (ipc (io st)) = None /\ forall j, j <> me -> wk_fl (wpc (wk st j)) = None.
 Proof.
-  intros st me HL0 HL1 HL3 Hme. split.
+  intros st me HL0 HL3 Hme. split.
   - destruct (io_fl (ipc (io st))) eqn:E; auto. apply io_fl_touch in E. destruct E as [E|E].
     + pose proof (lock_ok_io_excl _ _ _ _ (l0_o _ HL0) E me). congruence.
-    + pose proof (nofl_req_empty st HL1 HL3 (o_unl _ _ HL3 E) me) as X.
-      apply wk_ol_task_or_sc in Hme. destruct Hme as [T|T].
-      * rewrite (notask_req_empty st HL1 (o_unl _ _ HL3 E) me) in T. discriminate.
-      * rewrite (o_nsc _ _ HL3 me) in T. discriminate.
+    + rewrite (o_unl _ _ HL3) in E. discriminate.
   - intros j Hj. destruct (wk_fl (wpc (wk st j))) eqn:E; auto. apply wk_fl_ol in E.
     exfalso. apply Hj. eapply (lock_ok_wk_excl _ _ _ _ (l0_o _ HL0)); eauto.
 Qed.
@@ -191,198 +176,162 @@ Proof.
   apply in_task_serving in E. rewrite (others_not_serving st me HL1 Ho j Hj) in E. discriminate.
 Qed.
 
-Lemma task_no_iosc : forall st me, L1 st -> L3' P st -> in_task (wpc (wk st me)) = true ->
-  is_iosc (ipc (io st)) = false /\ io_unl (ipc (io st)) = false.
+(* ---- algebra of the transport statement *)
+Lemma kept_app : forall c (d p x : list tok), c + length d <= length p ->
+  firstn c (p ++ x) ++ skipn (c + length d) (p ++ x) = (firstn c p ++ skipn (c + length d) p) ++ x.
 Proof.
-  intros st me HL1 HL3 Ht. split.
-  - destruct (is_iosc (ipc (io st))) eqn:E; auto.
-    rewrite (notask_req_empty st HL1 (o_iosc _ _ HL3 E) me) in Ht. discriminate.
-  - destruct (io_unl (ipc (io st))) eqn:E; auto.
-    rewrite (notask_req_empty st HL1 (o_unl _ _ HL3 E) me) in Ht. discriminate.
+  intros c d p x H. rewrite firstn_app. replace (c - length p) with 0 by lia. simpl. rewrite app_nil_r.
+  rewrite skipn_app_le by lia. rewrite app_assoc. reflexivity.
 Qed.
 
-Ltac slv := solve [ intuition (eauto; try discriminate; try congruence; try lia) ].
+Lemma disc_app : forall c (d p x : list tok), c + length d <= length p ->
+  firstn (length d) (skipn c (p ++ x)) = firstn (length d) (skipn c p).
+Proof.
+  intros c d p x H. rewrite skipn_app_le by lia. rewrite firstn_app.
+  rewrite skipn_length. replace (length d - (length p - c)) with 0 by lia. simpl. rewrite app_nil_r. reflexivity.
+Qed.
 
-Ltac fwd :=
-  repeat match goal with
-  | H : ?A -> _ |- _ =>
-      match type of A with
-      | Prop => let HA := fresh in
-                assert (HA : A) by (first [ assumption | reflexivity | discriminate | congruence ]);
-                specialize (H HA); clear HA
-      end
-  end.
+(* appending x to the last buffer and to produced, nothing in flight *)
+Lemma transport_append : forall s s' x,
+  transport s -> cut s + length (discarded s) <= length (produced s) -> infl s = 0 ->
+  obs s' = app_last (obs s) x -> produced s' = produced s ++ x ->
+  infl s' = infl s -> wire s' = wire s -> discarded s' = discarded s -> cut s' = cut s ->
+  transport s' /\ cut s' + length (discarded s') <= length (produced s').
+Proof.
+  intros s s' x [T1 T2] Hc Hi E1 E2 E3 E4 E5 E6.
+  unfold transport, tr_l, kept in *. rewrite E1, E2, E3, E4, E5, E6. rewrite Hi in *. cbn [skipn] in *.
+  repeat split.
+  - rewrite concat_app_last. rewrite kept_app by auto. rewrite <- T1. rewrite app_assoc. reflexivity.
+  - rewrite disc_app by auto. exact T2.
+  - rewrite app_length. lia.
+Qed.
 
-(* the generic lemma about one step of _flush_some, instantiated for the step at hand *)
-Ltac use_fl OA OE OH :=
-  match goal with
-  | E : fl_step _ ?s ?f ?e = Some _ |- _ =>
-      let Hne := fresh "Hne'" in let HT := fresh "HT'" in let HS := fresh "HS" in let HI := fresh "HI'" in
-      pose proof (fl_step_ok s f e _ _ _ E OA (OE f eq_refl) OH) as (Hne & HT & HS & HI);
-      unfold same_rest in HS;
-      let S1 := fresh "S1" in let S2 := fresh "S2" in let S3 := fresh "S3" in let S4 := fresh "S4" in
-      let S5 := fresh "S5" in let S6 := fresh "S6" in let S7 := fresh "S7" in
-      destruct HS as (S1 & S2 & S3 & S4 & S5 & S6 & S7);
-      clear E
-  end.
+Ltac side := cbn; first [ reflexivity | assumption | discriminate | auto; fail
+                        | let X := fresh in intro X; first [ discriminate X | exact X ] ].
 
-Ltac none_contra :=
-  repeat match goal with
-  | Hn : forall j, wk_fl (wpc (?w j)) = None, H : wk_fl (wpc (?w ?j)) = Some _ |- _ => rewrite (Hn j) in H; discriminate H
-  | Hn : forall j, in_task (wpc (?w j)) = false, H : in_task (wpc (?w ?j)) = true |- _ => rewrite (Hn j) in H; discriminate H
-  | Hn : forall j, is_sc (wpc (?w j)) = false, H : is_sc (wpc (?w ?j)) = true |- _ => rewrite (Hn j) in H; discriminate H
-  end.
-
-Ltac fin3 :=
-  bool_hyps; cbn in *; fwd; none_contra;
-  try solve [ eauto ];
-  try slv.
-
-(* ---- one step of _flush_some made by the I/O thread *)
+(* ---- one step of _flush_some made by the I/O thread (under outbuf_lock) *)
 Lemma L3_fl_io : forall s i w f e s' r l i',
-  L0 {| sh := s; io := i; wk := w |} -> L1 {| sh := s; io := i; wk := w |} ->
+  L0 {| sh := s; io := i; wk := w |} ->
   L3' P {| sh := s; io := i; wk := w |} ->
   io_fl (ipc i) = Some f ->
   fl_step s f e = Some (s', r, l) ->
-  (io_unl (ipc i') = true -> io_unl (ipc i) = true) ->
+  io_unl (ipc i') = false ->
   (is_iosc (ipc i') = true -> is_iosc (ipc i) = true) ->
-  io_closed (ipc i') = false -> io_after_close (ipc i') = false ->
+  (io_closed (ipc i) = true -> io_closed (ipc i') = true) ->
   match r with FCont f' => io_fl (ipc i') = Some f' | _ => io_fl (ipc i') = None end ->
   L3' P {| sh := s'; io := i'; wk := w |}.
 Proof.
-  intros s i w f e s' r l i' HL0 HL1 HL3 Hf Hs Hu Hc Hcl Hac Hr.
+  intros s i w f e s' r l i' HL0 HL3 Hf Hs Hu Hc Hcl Hr.
   assert (Hnone : forall j, wk_fl (wpc (w j)) = None).
   { destruct (io_fl_touch _ _ Hf) as [X|X].
     - apply (nofl_io_ol _ HL0 X).
-    - apply (nofl_req_empty _ HL1 HL3 (o_unl _ _ HL3 X)). }
-  destruct HL3 as [A B C D E F G H I J K L M N O Q]. cbn [sh io wk] in *.
-  destruct (fl_step_ok s f e s' r l Hs A (E f Hf) H) as (Hne & HT & (S1 & S2 & S3 & S4 & S5 & S6 & S7) & HI).
-  split; cbn [sh io wk]; rewrite ?S1, ?S2, ?S3, ?S4, ?S5, ?S6; intros; eauto.
-  all: try (unfold transport in *; exact HT).
+    - pose proof (o_unl _ _ HL3) as Y. cbn [sh io wk] in *. congruence. }
+  destruct HL3 as [A B D E F G H C I J K L M N]. cbn [sh io wk] in *.
+  destruct (fl_step_ok s f e s' r l Hs A (E f Hf)) as (Hne & HT & (S1 & S2 & S3 & S4 & S5 & S6 & S7) & HI).
+  destruct H as [T1 T2].
+  split; cbn [sh io wk]; unfold transport, kept in *; rewrite ?HT, ?S1, ?S2, ?S3, ?S4, ?S5, ?S6, ?S7; intros; eauto.
   all: try (rewrite Hnone in *; discriminate).
   all: try (destruct r; try congruence; try contradiction;
             first [ exact HI | match goal with X : io_fl _ = Some ?a, Y : io_fl _ = Some ?b |- _ => assert (a = b) by congruence; subst; exact HI end ]).
   all: try congruence.
-  (* o_disc *)
-  apply N in H0.
-  destruct (io_fl_touch _ _ Hf) as [Y|Y]; destruct (ipc i); simpl in *; try discriminate;
-    try (destruct h; discriminate); try (destruct sc; discriminate).
 Qed.
 
-(* ---- one step of _flush_some made by a worker inside write_soon *)
+(* ---- one step of _flush_some made by a worker (inside write_soon or send_continue) *)
 Lemma L3_fl_wk : forall s i w me f e s' r l x,
   L0 {| sh := s; io := i; wk := w |} -> L1 {| sh := s; io := i; wk := w |} ->
   L3' P {| sh := s; io := i; wk := w |} ->
-  wpc (w me) = WWsFl f ->
+  wk_fl (wpc (w me)) = Some f ->
   fl_step s f e = Some (s', r, l) ->
   w_cur x = w_cur (w me) -> w_idx x = w_idx (w me) -> w_off x = w_off (w me) ->
-  in_task (wpc x) = true -> appended (wpc x) = true -> is_sc (wpc x) = false ->
-  is_relx (wpc x) = false -> app_pc (wpc x) = false ->
+  in_task (wpc x) = in_task (wpc (w me)) -> appended (wpc x) = appended (wpc (w me)) ->
+  is_relx (wpc x) = false ->
   match r with FCont f' => wk_fl (wpc x) = Some f' | _ => wk_fl (wpc x) = None end ->
   L3' P {| sh := s'; io := i; wk := upd w me x |}.
 Proof.
-  intros s i w me f e s' r l x HL0 HL1 HL3 Hpc Hs Hc1 Hc2 Hc3 Ht Ha Hsc Hrx Hap Hr.
-  assert (Hol : wk_ol (wpc (w me)) = true) by (rewrite Hpc; reflexivity).
-  destruct (wk_ol_excl _ me HL0 HL1 HL3 Hol) as [Hio Hoth]. cbn [sh io wk] in *.
-  assert (Hfme : wk_fl (wpc (w me)) = Some f) by (rewrite Hpc; reflexivity).
-  assert (Htme : in_task (wpc (w me)) = true) by (rewrite Hpc; reflexivity).
-  assert (Hame : appended (wpc (w me)) = true) by (rewrite Hpc; reflexivity).
+  intros s i w me f e s' r l x HL0 HL1 HL3 Hfme Hs Hc1 Hc2 Hc3 Ht Ha Hrx Hr.
+  assert (Hol : wk_ol (wpc (w me)) = true) by (eapply wk_fl_ol; eauto).
+  destruct (wk_ol_excl _ me HL0 HL3 Hol) as [Hio Hoth]. cbn [sh io wk] in *.
   assert (Hoff : off_now P x = off_now P (w me)).
-  { unfold off_now, wsize. rewrite Ha, Hame, Hc1, Hc2, Hc3. reflexivity. }
-  destruct HL3 as [A B C D E F G H I J K L M N O Q]. cbn [sh io wk] in *.
-  destruct (fl_step_ok s f e s' r l Hs A (F me f Hfme) H) as (Hne & HT & (S1 & S2 & S3 & S4 & S5 & S6 & S7) & HI).
-  split; cbn [sh io wk]; rewrite ?S1, ?S2, ?S3, ?S4, ?S5, ?S6; intros; eauto.
-  all: try (unfold transport in *; exact HT).
+  { unfold off_now, wsize. rewrite Ha, Hc1, Hc2, Hc3. reflexivity. }
+  destruct HL3 as [A B D E F G H C I J K L M N]. cbn [sh io wk] in *.
+  destruct (fl_step_ok s f e s' r l Hs A (F me f Hfme)) as (Hne & HT & (S1 & S2 & S3 & S4 & S5 & S6 & S7) & HI).
+  destruct H as [T1 T2].
+  split; cbn [sh io wk]; unfold transport, kept in *; rewrite ?HT, ?S1, ?S2, ?S3, ?S4, ?S5, ?S6, ?S7; intros; eauto.
   all: try congruence.
-  - (* o_nsc *) unfold upd. destruct (Nat.eqb_spec j me); auto.
-  - (* o_fwk *) unfold upd in H0. destruct (Nat.eqb_spec j me).
+  - (* o_fwk *) unfold upd in H. destruct (Nat.eqb_spec j me).
     + destruct r; try congruence; assert (f0 = f1) by congruence; subst; exact HI.
-    + rewrite Hoth in H0 by auto. discriminate.
-  - (* o_infl *) specialize (H1 me). rewrite upd_same in H1. destruct r; try congruence; try contradiction; exact HI.
+    + rewrite Hoth in H by auto. discriminate.
+  - (* o_infl *) specialize (H0 me). rewrite upd_same in H0. destruct r; try congruence; try contradiction; exact HI.
   - (* o_task *) unfold upd in *. destruct (Nat.eqb_spec j me).
-    + subst j. destruct (K me Htme) as (K1 & K2 & us & K3 & K4).
+    + subst j. rewrite Ht in H. destruct (K me H) as (K1 & K2 & us & K3 & K4).
       unfold writes in *. rewrite Hoff, Hc1, Hc2, Hc3. repeat split; auto. exists us. auto.
     + auto.
-  - (* o_done *) specialize (H0 me). rewrite upd_same in H0. congruence.
-  - (* o_relx *) unfold upd in H0. destruct (Nat.eqb_spec j me); eauto. congruence.
-  - (* o_app *) unfold upd in H0. destruct (Nat.eqb_spec j me); eauto. congruence.
+  - (* o_done *) apply L; auto. intro j. specialize (H j). unfold upd in H. destruct (Nat.eqb_spec j me); [subst j; congruence | auto].
+  - (* o_relx *) unfold upd in H. destruct (Nat.eqb_spec j me); eauto. congruence.
 Qed.
 
-Lemma io_closed_cases : forall pc, io_closed pc = true -> io_ol pc = true \/ io_after_close pc = true.
-Proof. destruct pc; simpl; try discriminate; auto. destruct h; simpl; auto; discriminate. Qed.
-Lemma app_pc_ol : forall pc, app_pc pc = true -> wk_ol pc = true.
-Proof. destruct pc; simpl; congruence. Qed.
-
-(* a worker that holds outbuf_lock and has seen connected = True: nothing was discarded *)
-Lemma no_disc_when_ol : forall st me, L0 st -> L3' P st -> wk_ol (wpc (wk st me)) = true ->
-  connected (sh st) = true -> discarded (sh st) = [].
-Proof.
-  intros st me HL0 HL3 Hol Hc. destruct (discarded (sh st)) eqn:E; auto.
-  assert (X : discarded (sh st) <> []) by (rewrite E; discriminate).
-  apply (o_disc _ _ HL3) in X. destruct (io_closed_cases _ X) as [Y|Y].
-  - pose proof (lock_ok_wk_io _ _ _ _ (l0_o _ HL0) me Hol). congruence.
-  - rewrite (o_dead _ _ HL3 Y) in Hc. discriminate.
-Qed.
-
-(* ---- the I/O thread appends an interim response (send_continue from received()) *)
-Lemma L3_append_io : forall s i w s' i' id,
-  L0 {| sh := s; io := i; wk := w |} -> L1 {| sh := s; io := i; wk := w |} ->
+(* ---- send_continue appends an interim response (I/O thread in received(), or the finishing worker) *)
+Lemma L3_append_cont : forall s i w s' i' w' id,
+  L1 {| sh := s; io := i; wk := w |} ->
   L3' P {| sh := s; io := i; wk := w |} ->
-  is_iosc (ipc i) = true -> io_ol (ipc i) = true -> io_fl (ipc i) = None -> io_closed (ipc i) = false ->
-  is_iosc (ipc i') = true -> io_fl (ipc i') = None -> io_unl (ipc i') = false ->
-  io_closed (ipc i') = false -> io_after_close (ipc i') = false ->
+  requests s = [] -> infl s = 0 ->
+  (forall j, wk_fl (wpc (w' j)) = None) -> io_fl (ipc i') = None -> io_unl (ipc i') = false ->
+  (forall j, in_task (wpc (w' j)) = in_task (wpc (w j))) ->
+  (forall j, is_relx (wpc (w' j)) = true -> is_relx (wpc (w j)) = true) ->
+  (io_closed (ipc i) = true -> io_closed (ipc i') = true) ->
   obs s' = app_last (obs s) (cont_toks P id) -> produced s' = produced s ++ cont_toks P id ->
   units s' = units s ++ [UCont id] ->
   infl s' = infl s -> wire s' = wire s -> discarded s' = discarded s -> execs s' = execs s ->
-  requests s' = requests s -> connected s' = connected s ->
-  L3' P {| sh := s'; io := i'; wk := w |}.
+  requests s' = requests s -> connected s' = connected s -> cut s' = cut s ->
+  L3' P {| sh := s'; io := i'; wk := w' |}.
 Proof.
-  intros s i w s' i' id HL0 HL1 HL3 Hsc Hol Hfl Hcl Hsc' Hfl' Hun' Hcl' Hac' E1 E2 E3 E4 E5 E6 E7 E8 E9.
-  pose proof (o_iosc _ _ HL3 Hsc) as Hreq. cbn [sh io wk] in Hreq.
-  pose proof (notask_req_empty _ HL1 Hreq) as Hnt. pose proof (nofl_io_ol _ HL0 Hol) as Hnf. cbn [sh io wk] in *.
-  assert (Hinfl : infl s = 0) by (apply (o_infl _ _ HL3); auto).
-  assert (Hdisc : discarded s = []).
-  { destruct (discarded s) eqn:E; auto. assert (X : discarded s <> []) by (rewrite E; discriminate).
-    apply (o_disc _ _ HL3) in X. cbn [sh io wk] in X. congruence. }
-  destruct HL3 as [A B C D E F G H I J K L M N O Q]. cbn [sh io wk] in *.
-  split; cbn [sh io wk]; unfold transport in *; rewrite ?E1, ?E2, ?E3, ?E4, ?E5, ?E6, ?E7, ?E8, ?E9; intros; eauto.
+  intros s i w s' i' w' id HL1 HL3 Hreq Hinfl Hnf Hfl' Hun' Htk Hrx Hcl E1 E2 E3 E4 E5 E6 E7 E8 E9 E10.
+  pose proof (notask_req_empty _ HL1 Hreq) as Hnt. cbn [sh io wk] in *.
+  destruct HL3 as [A B D E F G H C I J K L M N]. cbn [sh io wk] in *.
+  destruct (transport_append s s' (cont_toks P id) H C Hinfl E1 E2 E4 E5 E6 E10) as [HT HC].
+  split; cbn [sh io wk]; auto; rewrite ?E3, ?E7, ?E8, ?E9; intros; eauto.
   all: try congruence.
   all: try (rewrite Hnf in *; discriminate).
-  all: try (rewrite Hnt in *; discriminate).
-  - apply app_last_nonnil.
-  - rewrite Hinfl, Hdisc in *. cbn [skipn] in *. rewrite concat_app_last.
-    rewrite app_nil_r in *. rewrite <- H. rewrite app_assoc. reflexivity.
-  - rewrite flat_map_app. cbn. rewrite app_nil_r. congruence.
+  all: try (rewrite Htk, Hnt in *; discriminate).
+  - rewrite E1. apply app_last_nonnil.
+  - rewrite E2, flat_map_app. cbn. rewrite app_nil_r. congruence.
   - rewrite resp_ids_app. cbn. rewrite app_nil_r. assumption.
   - apply Forall_app. split; auto. constructor; simpl; auto.
+  - rewrite E6 in *. auto.
 Qed.
 
 (* ---- handle_close empties the buffers *)
 Lemma L3_close_bufs : forall s i w s' i',
-  L0 {| sh := s; io := i; wk := w |} -> L1 {| sh := s; io := i; wk := w |} ->
+  L0 {| sh := s; io := i; wk := w |} ->
   L3' P {| sh := s; io := i; wk := w |} ->
-  io_ol (ipc i) = true -> io_fl (ipc i) = None ->
+  io_ol (ipc i) = true -> io_fl (ipc i) = None -> io_closed (ipc i) = false ->
   io_fl (ipc i') = None -> io_unl (ipc i') = false -> is_iosc (ipc i') = false ->
-  io_closed (ipc i') = true -> io_after_close (ipc i') = false ->
+  io_closed (ipc i') = true ->
   obs s' = map (fun _ => []) (obs s) -> discarded s' = skipn (infl s) (concat (obs s)) ++ discarded s ->
+  cut s' = length (wire s) ->
   produced s' = produced s -> units s' = units s ->
   infl s' = infl s -> wire s' = wire s -> execs s' = execs s ->
   requests s' = requests s -> connected s' = connected s ->
   L3' P {| sh := s'; io := i'; wk := w |}.
 Proof.
-  intros s i w s' i' HL0 HL1 HL3 Hol Hfl Hfl' Hun' Hsc' Hcl' Hac' E1 E2 E3 E4 E5 E6 E7 E8 E9.
+  intros s i w s' i' HL0 HL3 Hol Hfl Hncl Hfl' Hun' Hsc' Hcl' E1 E2 E2' E3 E4 E5 E6 E7 E8 E9.
   pose proof (nofl_io_ol _ HL0 Hol) as Hnf. cbn [sh io wk] in *.
   assert (Hinfl : infl s = 0) by (apply (o_infl _ _ HL3); auto).
-  assert (Hnapp : forall j, app_pc (wpc (w j)) = false).
-  { intro j. destruct (app_pc (wpc (w j))) eqn:E; auto. apply app_pc_ol in E.
-    pose proof (lock_ok_io_excl _ _ _ _ (l0_o _ HL0) Hol j). cbn [sh io wk] in *. congruence. }
-  destruct HL3 as [A B C D E F G H I J K L M N O Q]. cbn [sh io wk] in *.
-  split; cbn [sh io wk]; unfold transport in *; rewrite ?E1, ?E2, ?E3, ?E4, ?E5, ?E6, ?E7, ?E8, ?E9; intros; eauto.
+  assert (Hdisc : discarded s = []).
+  { destruct (discarded s) eqn:E; auto. assert (X : discarded s <> []) by (rewrite E; discriminate).
+    apply (o_disc _ _ HL3) in X. cbn [sh io wk] in X. congruence. }
+  destruct HL3 as [A B D E F G H C I J K L M N]. cbn [sh io wk] in *.
+  destruct H as [T1 T2]. unfold tr_l, kept in T1. rewrite Hinfl, Hdisc in *. cbn [skipn length] in *.
+  rewrite Nat.add_0_r in T1. rewrite firstn_skipn in T1. rewrite app_nil_r in E2.
+  split; cbn [sh io wk]; unfold transport, tr_l, kept; rewrite ?E1, ?E2, ?E2', ?E3, ?E4, ?E5, ?E6, ?E7, ?E8, ?E9; intros; eauto.
   all: try congruence.
   all: try (rewrite Hnf in *; discriminate).
-  all: try (rewrite Hnapp in *; discriminate).
   - destruct (obs s); simpl; congruence.
-  - rewrite Hinfl in *. cbn [skipn] in *. rewrite concat_map_nil. cbn. exact H.
+  - rewrite concat_map_nil. cbn [skipn]. rewrite app_nil_r. rewrite <- T1.
+    rewrite firstn_app, Nat.sub_diag, firstn_all. cbn [firstn]. rewrite app_nil_r.
+    rewrite <- app_length, skipn_all, app_nil_r.
+    split; [reflexivity|]. rewrite skipn_app, Nat.sub_diag, skipn_all. cbn [skipn app]. rewrite firstn_all. reflexivity.
+  - rewrite <- T1. rewrite app_length. lia.
 Qed.
 
 Lemma list_sum_firstn_S : forall (l : list nat) i, i < length l ->
@@ -394,7 +343,6 @@ Proof.
   - rewrite (IH i) by lia. lia.
 Qed.
 
-(* the shared facts when worker [me] is the owner *)
 Ltac upd_me me :=
   unfold upd in *;
   repeat match goal with
@@ -409,28 +357,26 @@ Lemma L3_exec : forall s i w me x s',
   wpc (w me) = WSvConn -> connected s = true ->
   execs s' = execs s ++ [w_cur (w me)] -> units s' = units s ++ [UResp (w_cur (w me)) 0] ->
   obs s' = obs s -> infl s' = infl s -> wire s' = wire s -> produced s' = produced s ->
-  discarded s' = discarded s -> requests s' = requests s -> connected s' = connected s ->
+  discarded s' = discarded s -> requests s' = requests s -> connected s' = connected s -> cut s' = cut s ->
   w_cur x = w_cur (w me) -> w_idx x = 0 -> w_off x = 0 ->
-  wk_fl (wpc x) = None -> is_sc (wpc x) = false -> is_relx (wpc x) = false -> app_pc (wpc x) = false ->
-  appended (wpc x) = false ->
+  wk_fl (wpc x) = None -> is_relx (wpc x) = false -> appended (wpc x) = false ->
   (in_task (wpc x) = true -> 0 < length (r_writes (desc P (w_cur (w me))))) ->
   (in_task (wpc x) = false -> length (r_writes (desc P (w_cur (w me)))) = 0) ->
   L3' P {| sh := s'; io := i; wk := upd w me x |}.
 Proof.
-  intros s i w me x s' HL0 HL1 HL3 Hpc Hconn E1 E2 E3 E4 E5 E6 E7 E8 E9 X1 X2 X3 X4 X5 X6 X7 X8 X9 X10.
+  intros s i w me x s' HL0 HL1 HL3 Hpc Hconn E1 E2 E3 E4 E5 E6 E7 E8 E9 E10 X1 X2 X3 X4 X6 X8 X9 X10.
   assert (Hown : wk_owner (wpc (w me)) = true) by (rewrite Hpc; reflexivity).
   pose proof (owner_others_notask _ me HL1 Hown) as Hoth. cbn [sh io wk] in *.
   assert (Hnt : forall j, in_task (wpc (w j)) = false).
   { intro j. destruct (Nat.eq_dec j me) as [->|N]; auto. rewrite Hpc. reflexivity. }
   assert (Hfme : wk_fl (wpc (w me)) = None) by (rewrite Hpc; reflexivity).
-  destruct HL3 as [A B C D E F G H I J K L M N O Q]. cbn [sh io wk] in *.
+  destruct HL3 as [A B D E F G H C I J K L M N]. cbn [sh io wk] in *.
   pose proof (L Hnt Hconn) as Hall.
   assert (FE : forall f, FlInv s f -> FlInv s' f) by (intros f0 X; unfold FlInv in *; rewrite E3, E4; exact X).
-  split; cbn [sh io wk]; unfold transport in *; rewrite ?E1, ?E2, ?E3, ?E4, ?E5, ?E6, ?E7, ?E8, ?E9; intros; eauto.
+  split; cbn [sh io wk]; unfold transport, tr_l, kept in *; rewrite ?E1, ?E2, ?E3, ?E4, ?E5, ?E6, ?E7, ?E8, ?E9, ?E10; intros; eauto.
   all: try congruence.
   all: try solve [apply FE; eauto].
   all: try solve [upd_me me; [congruence | apply FE; eauto]].
-  - (* o_nsc *) upd_me me; auto.
   - (* o_infl *) apply G; auto. intro j. specialize (H1 j). upd_me me; auto.
   - (* o_prod *) rewrite flat_map_app. cbn. unfold resp_toks. cbn. rewrite app_nil_r. assumption.
   - (* o_ids *) rewrite resp_ids_app. cbn. congruence.
@@ -441,7 +387,6 @@ Proof.
     specialize (H0 me). rewrite upd_same in H0. specialize (X10 H0).
     unfold resp_len. destruct (r_writes (desc P (w_cur (w me)))); simpl in *; [reflexivity|discriminate].
   - (* o_relx *) upd_me me; [congruence | eauto].
-  - (* o_app *) upd_me me; [congruence | eauto].
 Qed.
 
 (* ---- write_soon rotates to a new buffer *)
@@ -451,26 +396,25 @@ Lemma L3_rot : forall s i w me x s',
   wpc (w me) = WWsRot -> obs s' = obs s ++ [[]] ->
   infl s' = infl s -> wire s' = wire s -> produced s' = produced s -> units s' = units s ->
   discarded s' = discarded s -> requests s' = requests s -> connected s' = connected s -> execs s' = execs s ->
+  cut s' = cut s ->
   w_cur x = w_cur (w me) -> w_idx x = w_idx (w me) -> w_off x = w_off (w me) ->
-  wk_fl (wpc x) = None -> is_sc (wpc x) = false -> is_relx (wpc x) = false -> app_pc (wpc x) = true ->
+  wk_fl (wpc x) = None -> is_relx (wpc x) = false ->
   appended (wpc x) = false -> in_task (wpc x) = true ->
   L3' P {| sh := s'; io := i; wk := upd w me x |}.
 Proof.
-  intros s i w me x s' HL0 HL1 HL3 Hpc E1 E2 E3 E4 E5 E6 E7 E8 E9 X1 X2 X3 X4 X5 X6 X7 X8 X9.
+  intros s i w me x s' HL0 HL1 HL3 Hpc E1 E2 E3 E4 E5 E6 E7 E8 E9 E10 X1 X2 X3 X4 X6 X8 X9.
   assert (Hol : wk_ol (wpc (w me)) = true) by (rewrite Hpc; reflexivity).
-  destruct (wk_ol_excl _ me HL0 HL1 HL3 Hol) as [Hio Hoth]. cbn [sh io wk] in *.
+  destruct (wk_ol_excl _ me HL0 HL3 Hol) as [Hio Hoth]. cbn [sh io wk] in *.
   assert (Hfme : wk_fl (wpc (w me)) = None) by (rewrite Hpc; reflexivity).
   assert (Hnf : forall j, wk_fl (wpc (w j)) = None).
   { intro j. destruct (Nat.eq_dec j me) as [->|N]; auto. }
   assert (Htme : in_task (wpc (w me)) = true) by (rewrite Hpc; reflexivity).
   assert (Hame : appended (wpc (w me)) = false) by (rewrite Hpc; reflexivity).
   assert (Hoff : off_now P x = off_now P (w me)) by (unfold off_now; rewrite X8, Hame; auto).
-  assert (Hdme : app_pc (wpc (w me)) = true) by (rewrite Hpc; reflexivity).
-  destruct HL3 as [A B C D E F G H I J K L M N O Q]. cbn [sh io wk] in *.
-  split; cbn [sh io wk]; unfold transport in *; rewrite ?E1, ?E2, ?E3, ?E4, ?E5, ?E6, ?E7, ?E8, ?E9; intros; eauto.
+  destruct HL3 as [A B D E F G H C I J K L M N]. cbn [sh io wk] in *.
+  split; cbn [sh io wk]; unfold transport, tr_l, kept in *; rewrite ?E1, ?E2, ?E3, ?E4, ?E5, ?E6, ?E7, ?E8, ?E9, ?E10; intros; eauto.
   all: try congruence.
   - destruct (obs s); simpl; discriminate.
-  - upd_me me; auto.
   - upd_me me; [congruence | rewrite Hnf in *; discriminate].
   - rewrite concat_snoc_nil. assumption.
   - upd_me me.
@@ -490,15 +434,15 @@ Lemma L3_append_wk : forall s i w me x s',
   produced s' = produced s ++ resp_toks (w_cur (w me)) (w_off (w me)) (wsize P (w me)) ->
   units s' = bump (w_cur (w me)) (wsize P (w me)) (units s) ->
   infl s' = infl s -> wire s' = wire s -> discarded s' = discarded s -> requests s' = requests s ->
-  connected s' = connected s -> execs s' = execs s ->
+  connected s' = connected s -> execs s' = execs s -> cut s' = cut s ->
   w_cur x = w_cur (w me) -> w_idx x = w_idx (w me) -> w_off x = w_off (w me) ->
-  wk_fl (wpc x) = None -> is_sc (wpc x) = false -> is_relx (wpc x) = false -> app_pc (wpc x) = false ->
+  wk_fl (wpc x) = None -> is_relx (wpc x) = false ->
   appended (wpc x) = true -> in_task (wpc x) = true ->
   L3' P {| sh := s'; io := i; wk := upd w me x |}.
 Proof.
-  intros s i w me x s' HL0 HL1 HL3 Hpc E1 E2 E3 E4 E5 E6 E7 E8 E9 X1 X2 X3 X4 X5 X6 X7 X8 X9.
+  intros s i w me x s' HL0 HL1 HL3 Hpc E1 E2 E3 E4 E5 E6 E7 E8 E9 E10 X1 X2 X3 X4 X6 X8 X9.
   assert (Hol : wk_ol (wpc (w me)) = true) by (rewrite Hpc; reflexivity).
-  destruct (wk_ol_excl _ me HL0 HL1 HL3 Hol) as [Hio Hoth]. cbn [sh io wk] in *.
+  destruct (wk_ol_excl _ me HL0 HL3 Hol) as [Hio Hoth]. cbn [sh io wk] in *.
   assert (Hfme : wk_fl (wpc (w me)) = None) by (rewrite Hpc; reflexivity).
   assert (Hnf : forall j, wk_fl (wpc (w j)) = None).
   { intro j. destruct (Nat.eq_dec j me) as [->|N]; auto. }
@@ -507,22 +451,19 @@ Proof.
   assert (Hown : wk_owner (wpc (w me)) = true) by (rewrite Hpc; reflexivity).
   pose proof (owner_others_notask _ me HL1 Hown) as Hont. cbn [sh io wk] in *.
   assert (Hinfl : infl s = 0) by (apply (o_infl _ _ HL3); auto).
-  assert (Hdisc : discarded s = []) by (apply (o_app _ _ HL3 me); cbn; rewrite Hpc; reflexivity).
-  destruct HL3 as [A B C D E F G H I J K L M N O Q]. cbn [sh io wk] in *.
+  destruct HL3 as [A B D E F G H C I J K L M N]. cbn [sh io wk] in *.
+  destruct (transport_append s s' _ H C Hinfl E1 E2 E4 E5 E6 E10) as [HT HC].
   destruct (K me Htme) as (K1 & K2 & us & K3 & K4).
   unfold off_now in K3. rewrite Hame in K3.
   assert (Hbump : bump (w_cur (w me)) (wsize P (w me)) (units s) = us ++ [UResp (w_cur (w me)) (w_off (w me) + wsize P (w me))]).
   { rewrite K3. apply bump_last. }
   assert (Hoffx : off_now P x = w_off (w me) + wsize P (w me)).
   { unfold off_now, wsize. rewrite X8, X1, X2, X3. reflexivity. }
-  split; cbn [sh io wk]; unfold transport in *; rewrite ?E1, ?E2, ?E3, ?E4, ?E5, ?E6, ?E7, ?E8, ?E9; intros; eauto.
+  split; cbn [sh io wk]; auto; rewrite ?E3, ?E7, ?E8, ?E9; intros; eauto.
   all: try congruence.
-  - apply app_last_nonnil.
-  - upd_me me; auto.
+  - rewrite E1. apply app_last_nonnil.
   - upd_me me; [congruence | rewrite Hnf in *; discriminate].
-  - rewrite Hinfl, Hdisc in *. cbn [skipn] in *. rewrite concat_app_last.
-    rewrite app_nil_r in *. rewrite <- H. rewrite app_assoc. reflexivity.
-  - rewrite Hbump. rewrite I, K3. rewrite !flat_map_app. cbn. rewrite !app_nil_r.
+  - rewrite E2, Hbump. rewrite I, K3. rewrite !flat_map_app. cbn. rewrite !app_nil_r.
     rewrite resp_toks_app. rewrite app_assoc. reflexivity.
   - rewrite Hbump. rewrite <- J, K3. rewrite !resp_ids_app. reflexivity.
   - rewrite Hbump. upd_me me.
@@ -530,6 +471,7 @@ Proof.
     + rewrite Hont in H0 by auto. discriminate.
   - specialize (H0 me). rewrite upd_same in H0. congruence.
   - upd_me me; [congruence | eauto].
+  - rewrite E6 in H0. auto.
 Qed.
 
 (* ---- write_soon returns: the next call, or the end of the task *)
@@ -539,31 +481,28 @@ Lemma L3_rel : forall s i w me x s',
   wpc (w me) = WWsRel ->
   obs s' = obs s -> infl s' = infl s -> wire s' = wire s -> produced s' = produced s -> units s' = units s ->
   discarded s' = discarded s -> requests s' = requests s -> connected s' = connected s -> execs s' = execs s ->
+  cut s' = cut s ->
   w_cur x = w_cur (w me) -> w_idx x = S (w_idx (w me)) -> w_off x = w_off (w me) + wsize P (w me) ->
-  wk_fl (wpc x) = None -> is_sc (wpc x) = false -> is_relx (wpc x) = false -> app_pc (wpc x) = false ->
-  appended (wpc x) = false ->
+  wk_fl (wpc x) = None -> is_relx (wpc x) = false -> appended (wpc x) = false ->
   (in_task (wpc x) = true -> S (w_idx (w me)) < length (writes P (w me))) ->
   (in_task (wpc x) = false -> length (writes P (w me)) <= S (w_idx (w me))) ->
   L3' P {| sh := s'; io := i; wk := upd w me x |}.
 Proof.
-  intros s i w me x s' HL0 HL1 HL3 Hpc E1 E2 E3 E4 E5 E6 E7 E8 E9 X1 X2 X3 X4 X5 X6 X7 X8 X9 X10.
-  assert (Hol : wk_ol (wpc (w me)) = true) by (rewrite Hpc; reflexivity).
-  destruct (wk_ol_excl _ me HL0 HL1 HL3 Hol) as [Hio Hoth]. cbn [sh io wk] in *.
+  intros s i w me x s' HL0 HL1 HL3 Hpc E1 E2 E3 E4 E5 E6 E7 E8 E9 E10 X1 X2 X3 X4 X6 X8 X9 X10.
   assert (Htme : in_task (wpc (w me)) = true) by (rewrite Hpc; reflexivity).
   assert (Hame : appended (wpc (w me)) = true) by (rewrite Hpc; reflexivity).
   assert (Hown : wk_owner (wpc (w me)) = true) by (rewrite Hpc; reflexivity).
   pose proof (owner_others_notask _ me HL1 Hown) as Hont. cbn [sh io wk] in *.
   assert (FE : forall f, FlInv s f -> FlInv s' f) by (intros f0 X; unfold FlInv in *; rewrite E1, E2; exact X).
   assert (Hfme : wk_fl (wpc (w me)) = None) by (rewrite Hpc; reflexivity).
-  destruct HL3 as [A B C D E F G H I J K L M N O Q]. cbn [sh io wk] in *.
+  destruct HL3 as [A B D E F G H C I J K L M N]. cbn [sh io wk] in *.
   destruct (K me Htme) as (K1 & K2 & us & K3 & K4).
   unfold off_now in K3. rewrite Hame in K3.
   assert (Hsum : w_off (w me) + wsize P (w me) = list_sum (firstn (S (w_idx (w me))) (writes P (w me)))).
   { rewrite list_sum_firstn_S by auto. unfold wsize, writes in *. rewrite K2. reflexivity. }
-  split; cbn [sh io wk]; unfold transport in *; rewrite ?E1, ?E2, ?E3, ?E4, ?E5, ?E6, ?E7, ?E8, ?E9; intros; eauto.
+  split; cbn [sh io wk]; unfold transport, tr_l, kept in *; rewrite ?E1, ?E2, ?E3, ?E4, ?E5, ?E6, ?E7, ?E8, ?E9, ?E10; intros; eauto.
   all: try congruence.
   all: try solve [apply FE; eauto].
-  - upd_me me; auto.
   - upd_me me; [congruence | apply FE; eauto].
   - apply G; auto. intro j. specialize (H1 j). upd_me me; auto.
   - upd_me me.
@@ -575,16 +514,12 @@ Proof.
     rewrite K3. apply Forall_app. split; auto. constructor; auto. simpl.
     rewrite Hsum. unfold resp_len, writes in *. rewrite firstn_all2 by lia. reflexivity.
   - upd_me me; [congruence | eauto].
-  - upd_me me; [congruence | eauto].
 Qed.
 
-Ltac side := cbn; first [ reflexivity | assumption | discriminate | auto; fail
-                        | let X := fresh in intro X; first [ discriminate X | exact X ] ].
-
-Ltac fl_io HL0 HL1 HL3 :=
+Ltac fl_io HL0 HL3 :=
   match goal with
   | E : fl_step ?s ?f ?e = Some (?s', ?r, ?l) |- L3' _ {| sh := ?s'; io := ?i'; wk := ?w |} =>
-      eapply (L3_fl_io _ _ _ f e s' r l i' HL0 HL1 HL3); [ reflexivity | exact E | side | side | side | side | side ]
+      eapply (L3_fl_io _ _ _ f e s' r l i' HL0 HL3); [ reflexivity | exact E | side | side | side | side ]
   end.
 
 Ltac fl_wk me Hw HL0 HL1 HL3 :=
@@ -592,51 +527,53 @@ Ltac fl_wk me Hw HL0 HL1 HL3 :=
   | E : fl_step ?s ?f ?e = Some (?s', ?r, ?l) |- L3' _ {| sh := ?s'; io := ?i; wk := upd ?w me ?x |} =>
       eapply (L3_fl_wk _ _ _ me f e s' r l x HL0 HL1 HL3);
       [ rewrite Hw; reflexivity | exact E | rewrite Hw; reflexivity | rewrite Hw; reflexivity | rewrite Hw; reflexivity
-      | side | side | side | side | side | side ]
+      | rewrite Hw; reflexivity | rewrite Hw; reflexivity | side | side ]
   end.
 
-Theorem L3'_step : forall st c st' l, L0 st -> L1 st -> L2 st -> L3' P st -> wsc (sh st') = false ->
+Theorem L3_step : forall st c st' l, L0 st -> L1 st -> L2 st -> L3' P st ->
   step P st c = Some (st', l) -> L3' P st'.
 Proof.
-  intros st c st' l HL0 HL1 HL2 HL3 Hwsc Hs.
+  intros st c st' l HL0 HL1 HL2 HL3 Hs.
   destruct c as [e | me e].
   - pose proof (nofl_io_ol st HL0) as Fa.
-    pose proof (nofl_req_empty st HL1 HL3) as Fb.
     pose proof (nofl_olock_free st HL0) as Fc.
     pose proof (o_infl _ _ HL3) as Hinf0.
+    pose proof (o_unl _ _ HL3) as Hnu.
+    pose proof (o_iosc _ _ HL3) as Hreq0.
     step_io' Hs; cbn [sh io wk ipc] in *.
+    all: try congruence.
+    all: cbn in Hnu; try discriminate Hnu.
     all: try solve [frame_io HL3].
     all: try solve [destruct icomp; frame_io HL3].
-    all: try solve [fl_io HL0 HL1 HL3].
+    all: try solve [fl_io HL0 HL3].
     (* entering _flush_some: nothing is in flight *)
     all: try (match goal with |- L3' _ {| sh := ?s0; io := _; wk := _ |} =>
                 assert (Hinfl : infl s0 = 0) by
                  (cbn; apply Hinf0; [ reflexivity
                                | first [ apply Fa; reflexivity
-                                       | apply Fb; first [assumption | reflexivity]
                                        | apply Fc; apply free_none; assumption ] ]) end;
               cbn in Hinfl; solve [frame_io HL3]).
     (* send_continue appends *)
-    all: try solve [ eapply (L3_append_io _ _ _ _ _ (pst_id s) HL0 HL1 HL3); side ].
+    all: try solve [ match goal with |- L3' _ {| sh := ?s0; io := ?i0; wk := ?w0 |} =>
+                       eapply (L3_append_cont _ _ w0 s0 i0 w0 (pst_id s) HL1 HL3) end;
+                     first [ apply Hreq0; reflexivity
+                           | apply Hinf0; [reflexivity | apply Fa; reflexivity]
+                           | apply Fa; reflexivity
+                           | side | intros; reflexivity | intros; assumption ] ].
     (* handle_close *)
-    all: try solve [ eapply (L3_close_bufs _ _ _ _ _ HL0 HL1 HL3); side ].
-  - pose proof (o_nsc _ _ HL3 me) as Hnsc.
-    pose proof (o_relx _ _ HL3 me) as Hrelx.
-    pose proof (no_disc_when_ol st me HL0 HL3) as Hnd.
-    pose proof (wk_ol_excl st me HL0 HL1 HL3) as Hexcl.
+    all: try solve [ eapply (L3_close_bufs _ _ _ _ _ HL0 HL3); side ].
+  - pose proof (o_relx _ _ HL3 me) as Hrelx.
+    pose proof (o_unl _ _ HL3) as Hnu.
+    pose proof (wk_ol_excl st me HL0 HL3) as Hexcl.
     pose proof (o_infl _ _ HL3) as Hinf0.
+    pose proof (l1_sc _ HL1 me) as Hsc0.
     step_wk' Hs; cbn [sh io wk ipc] in *.
-    all: cbn in Hnsc, Hrelx, Hnd, Hexcl.
-    all: try discriminate Hnsc.
-    all: try (cbn in Hwsc; discriminate Hwsc).
+    all: cbn in Hrelx, Hexcl, Hsc0, Hnu.
     all: try solve [frame_wk HL3 me Hw].
     all: try solve [fl_wk me Hw HL0 HL1 HL3].
     all: try (match goal with |- L3' _ {| sh := ?s0; io := _; wk := _ |} =>
                 assert (Hcf : connected s0 = false) by (cbn; apply Hrelx; reflexivity) end;
               cbn in Hcf; solve [frame_wk HL3 me Hw]).
-    all: try (match goal with |- L3' _ {| sh := ?s0; io := _; wk := _ |} =>
-                assert (Hd : discarded s0 = []) by (cbn; apply Hnd; first [reflexivity | assumption]) end;
-              cbn in Hd; solve [frame_wk HL3 me Hw]).
     all: try (match goal with |- L3' _ {| sh := ?s0; io := _; wk := _ |} =>
                 assert (Hinfl : infl s0 = 0) by
                  (cbn; destruct (Hexcl eq_refl) as [X1 X2]; apply Hinf0; [ exact X1 | ];
@@ -658,19 +595,26 @@ Proof.
                        eapply (L3_rel _ i0 w0 me0 x s0 HL0 HL1 HL3) end;
                      rewrite ?Hw; unfold writes, wsize; rewrite ?Hw; cbn; intros; bool_hyps;
                      first [ reflexivity | assumption | lia | discriminate ] ].
-Qed.
-
-(* wsc is only ever set *)
-Lemma wsc_mono : forall st c st' l, step P st c = Some (st', l) -> wsc (sh st') = false -> wsc (sh st) = false.
-Proof.
-  intros st c st' l Hs H. destruct c as [e | me e].
-  - step_io Hs; cbn in *; congruence.
-  - step_wk Hs; cbn in *; congruence.
-Qed.
-
-Theorem L3_step : forall st c st' l, L0 st -> L1 st -> L2 st -> L3 P st -> step P st c = Some (st', l) -> L3 P st'.
-Proof.
-  intros st c st' l HL0 HL1 HL2 HL3 Hs Hwsc.
-  eapply L3'_step; eauto. apply HL3. eapply wsc_mono; eauto.
+    (* the finishing worker's send_continue appends the interim response *)
+    destruct (Hexcl eq_refl) as [X1 X2].
+    eapply (L3_append_cont s i w _ i _ (pst_id s) HL1 HL3).
+    + apply Hsc0; reflexivity.
+    + apply Hinf0; [exact X1|]. intro j. destruct (Nat.eq_dec j me) as [->|N]; [rewrite Hw; reflexivity | apply X2; exact N].
+    + intro j. unfold upd. destruct (Nat.eqb_spec j me); [reflexivity | apply X2; assumption].
+    + exact X1.
+    + exact Hnu.
+    + intro j. unfold upd. destruct (Nat.eqb_spec j me); [subst j; rewrite Hw; reflexivity | reflexivity].
+    + intros j. unfold upd. destruct (Nat.eqb_spec j me); [cbn; discriminate | auto].
+    + auto.
+    + reflexivity.
+    + reflexivity.
+    + reflexivity.
+    + reflexivity.
+    + reflexivity.
+    + reflexivity.
+    + reflexivity.
+    + reflexivity.
+    + reflexivity.
+    + reflexivity.
 Qed.
 End Step.
